@@ -28,7 +28,7 @@ def P(**kw):
 PROPS = {
     "C01": P(
         technique="Lean 4 theorems (induction over byte lists / chunk lists) + differential correspondence model vs implementation",
-        level_text="Proof of the data transformations every message goes through, for all inputs: word-at-a-time masking = RFC byte-wise masking for every alignment/key/offset/length, masking involutive and offset-carrying across splits, truncWriter forwards all but the last 4 bytes for every chunking, strict frame decode inverts the writer's encode for every length < 2^63; the constructor always leaves room for a control frame (F4 repair) so a ping/pong of at most 125 bytes through WriteMessage is accepted and is exactly one control frame; the per-message round trip over the writer model (any buffer size, any split of writes, controls in between) and the reader's decoding of any conformant fragmentation are C02.message_roundtrip / C03.read_message. Tie: random write programs and random conformant streams run on the real package and on the compiled model, wire bytes and delivered bytes compared exactly; an independent RFC decoder/inflater judges sent vs delivered.",
+        level_text="Proof (round_trip): whatever WriteMessage(t, data) puts on the wire — any payload below 2^40 bytes, any write buffer size, either role — a connection of the opposite role reads as exactly (t, data) through any bufio size ≥ 125, any transport chunking and reads of any size, with no handler invoked and the following bytes untouched. Proof of the data transformations every message goes through, for all inputs: word-at-a-time masking = RFC byte-wise masking for every alignment/key/offset/length, masking involutive and offset-carrying across splits, truncWriter forwards all but the last 4 bytes for every chunking, strict frame decode inverts the writer's encode for every length < 2^63; the constructor always leaves room for a control frame (F4 repair) so a ping/pong of at most 125 bytes through WriteMessage is accepted and is exactly one control frame; the per-message round trip over the writer model (any buffer size, any split of writes, controls in between) and the reader's decoding of any conformant fragmentation are C02.message_roundtrip / C03.read_message. Tie: random write programs and random conformant streams run on the real package and on the compiled model, wire bytes and delivered bytes compared exactly; an independent RFC decoder/inflater judges sent vs delivered.",
         level_note="compress/flate and encoding/json are parameters; end-to-end composition through a real connected pair is checked by correspondence (stream pair), the theorem composition is per side.",
         lean=["WS.Props.C01"],
         streams=[("w", 500, 12000), ("rconf", 500, 12000), ("unit", 300, 6000), ("pair", 150, 3000)],
@@ -84,14 +84,14 @@ PROPS = {
     "C08": P(
         technique="Lean 4 theorems over the reader+writer model + differential correspondence",
         level_text="Proof: while a conformant message is read to its end the handler log grows by exactly the interleaved pings/pongs, in wire order, with exact payloads (any fragmentation, chunking, read sizes); a ping of 0..125 bytes is answered by one pong with the identical payload; a close with an accepted code and UTF-8 reason is handed to the handler once, echoed with the same code, and reported as CloseError{code, reason}; a handler error is permanent. Tie: controls at every position of 1-5-fragment messages, payload lengths {0,1,2,7,50,124,125}, all accepted close-code classes, default / recording / failing handlers, both roles; handler log and reply frames compared exactly; oracle: handler log = control frames in wire order, pongs = pings.",
-        level_note="Default-handler theorems are stated for a client-side reader (unmasked peer frames); the server side differs only by unmasking (C01.mask_involutive) and is covered by correspondence.",
+        level_note="Default-handler theorems are proved for either role (default_*_any_role: a server-side reader unmasks with the frame's key); handlers_exactly_once is role-generic.",
         lean=["WS.Props.C08"],
         streams=[("rconf", 900, 16000), ("rviol", 300, 6000)],
         assumptions=[ASSUME_BUFIO],
     ),
     "C09": P(
         technique="Lean 4 theorem over an interleaving semantics (invariant by induction over the step relation) + decide over generated skeletons + differential correspondence",
-        level_text="Proof: in every reachable state of every interleaving of any number of threads of the lock protocol a close frame is last on the wire, nothing is appended after it and later writers fail (WS.Props.C09, Lean kernel). The protocol is tied to today's Conn.write/WriteControl by WellLocked decided over statement skeletons regenerated from /repo, and the sequential model is tied by differential runs (close sent at every step of random programs, transport faults).",
+        level_text="Proof: in every reachable state of every interleaving of any number of threads of the lock protocol a close frame is last on the wire, nothing is appended after it and later writers fail; sequentially: once the sticky error is set every write request fails, and Close on any writer handle — the one that was open when the close went out included — returns an error, so that message is never reported as sent (WS.Props.C09, Lean kernel). The protocol is tied to today's Conn.write/WriteControl by WellLocked decided over statement skeletons regenerated from /repo, and the sequential model is tied by differential runs (close sent at every step of random programs, transport faults).",
         level_note="Assumes Go channel/mutex atomicity as modelled; model of conn.go hand-written (tie: factgen skeletons + harness); flate is an environment answer.",
         lean=["WS.Props.C09"],
         streams=[("wclose", 800, 12000), ("wfault", 400, 6000), ("sched", 80, 1500)],
@@ -137,7 +137,7 @@ PROPS = {
     ),
     "C15": P(
         technique="Lean 4 theorems + decide over the literals regenerated from client.go/server.go + exhaustive 2x2 correspondence with message exchange",
-        level_text="Proof: server compresses iff enabled and permessage-deflate offered; client compresses iff the reply carries it (both parameters required, else Dial fails: C14.dial_iff); the offer literal of today's Dialer makes an enabled Upgrader compress and the announcement literal of today's Upgrader is accepted by the Dialer (decide over regenerated literals); RSV1 is a violation exactly when not negotiated; with compression on a message is one RSV1+deflate message and after EnableWriteCompression(false) the next one is plain (toggle_safe). Tie: all four (Dialer, Upgrader) settings through a real handshake of the two in-process, then messages in both directions with random EnableWriteCompression / SetCompressionLevel toggles; offer and reply variants in the srv / cli streams.",
+        level_text="Proof (both_or_neither): composing the Dialer model and the Upgrader model through net/http as carrier (header fields arrive under canonical names: reqOf / replyOf, with replyOf tied to the bytes of the 101), whenever the Dialer's request is upgraded the server side compresses exactly when both sides enabled compression and the Dialer accepts the reply with the same setting, for every pair of settings, subprotocol lists, URLs and keys; and that handshake does succeed. Also: server compresses iff enabled and permessage-deflate offered; client compresses iff the reply carries it (both parameters required, else Dial fails: C14.dial_iff); the offer literal of today's Dialer makes an enabled Upgrader compress and the announcement literal of today's Upgrader is accepted by the Dialer (decide over regenerated literals); RSV1 is a violation exactly when not negotiated; with compression on a message is one RSV1+deflate message and after EnableWriteCompression(false) the next one is plain (toggle_safe). Tie: all four (Dialer, Upgrader) settings through a real handshake of the two in-process, then messages in both directions with random EnableWriteCompression / SetCompressionLevel toggles; offer and reply variants in the srv / cli streams.",
         level_note="flate is environment; toggling safety beyond the exchanged messages rests on C02 (each message is plain or RSV1+deflate) and C03.",
         lean=["WS.Props.C15"],
         streams=[("nego", 200, 4000), ("srv", 400, 8000), ("cli", 400, 8000), ("pair", 150, 3000)],
@@ -168,7 +168,7 @@ PROPS = {
     ),
     "C19": P(
         technique="Lean 4 theorems over the prepared-message model (via the per-message round-trip theorem) + differential correspondence with shared prepared messages",
-        level_text="Proof: the cache key is computed from the connection's role and compression settings at the time of the call; an uncompressed image is what WriteMessage writes on a fresh connection of that role and decodes to exactly one message with the type and payload given at creation, for every size (beyond the 4096-byte internal buffer) and either role; sending never changes a cached entry nor the type/payload; a new entry is the rendering of exactly its key; a compressed image is cached only if it decodes to one well-formed compressed message whose payload is the deflate stream minus its tail; a hit is sent in one transport write under the connection's deadline. Tie: one or more PreparedMessages shared by 1-4 connections of random roles / compression settings / levels, random order, toggles between sends; exact wire bytes compared with the model (mask keys of rendered client frames included); independent decoder + inflater: wire message = (type, payload at creation).",
+        level_text="Proof: a prepared text/binary message sent on a connection between messages (either role, any buffer size, variant cached or rendered now) is accepted and the wire gains exactly one complete message with the type and payload given at creation — what C02.writeMessage_roundtrip says WriteMessage sends; a prepared ping/pong is exactly one control frame; the cache invariant behind this is established by NewPreparedMessage and preserved by every send; the cache key is computed from the connection's role and compression settings at the time of the call; an uncompressed image is what WriteMessage writes on a fresh connection of that role and decodes to exactly one message with the type and payload given at creation, for every size (beyond the 4096-byte internal buffer) and either role; sending never changes a cached entry nor the type/payload; a new entry is the rendering of exactly its key; a compressed image is cached only if it decodes to one well-formed compressed message whose payload is the deflate stream minus its tail; a hit is sent in one transport write under the connection's deadline. Tie: one or more PreparedMessages shared by 1-4 connections of random roles / compression settings / levels, random order, toggles between sends; exact wire bytes compared with the model (mask keys of rendered client frames included); independent decoder + inflater: wire message = (type, payload at creation).",
         level_note="Compressed images are environment answers validated by imageOk (frame boundaries depend on flate's chunking); concurrent first use of a key relies on sync.Once / sync.Mutex (C11 table: frames/once only in frame).",
         lean=["WS.Props.C19"],
         streams=[("prep", 800, 16000), ("w", 300, 4000), ("conc", 60, 1000)],
